@@ -859,7 +859,13 @@ def r69(ctx: Ctx) -> RuleReport:
 @rule('R98', 'the comment scanner records every "::key value" segment of every comment line and hands the map to the tree')
 def r98(ctx: Ctx) -> RuleReport:
     rep = RuleReport('R98', r98.title, floor=3)
-    fi = ctx.repo.func('penman._parse', '_parse_comments')
+    cands = [f for f in ctx.repo.module('penman._parse').all_funcs
+             if any(isinstance(n, ast.Call) and isinstance(n.func, ast.Attribute) and n.func.attr in ('rpartition', 'partition', 'split', 'rsplit') and n.args
+                    and try_fold(n.args[0], {}, ctx.repo, f.module) == (True, '::') for n in walk_local(f.node))]
+    if len(cands) != 1:
+        rep.undecided('penman._parse: one function splits comment text at "::"', 'penman/_parse.py', f'{len(cands)} such functions')
+        return rep
+    fi = cands[0]
     stores = [n for n in walk_local(fi.node) if isinstance(n, ast.Assign) and isinstance(n.targets[0], ast.Subscript) and isinstance(n.targets[0].value, ast.Name)]
     parts = [n for n in walk_local(fi.node) if isinstance(n, ast.Assign) and isinstance(n.value, ast.Call) and isinstance(n.value.func, ast.Attribute)
              and n.value.func.attr in ('rpartition', 'partition', 'split', 'rsplit') and n.value.args and try_fold(n.value.args[0]) == (True, '::')]
